@@ -7,6 +7,7 @@ Hendrix: the implementation truncates the demand support; its total mass is **no
 import MdpaxV.Model.Probs
 import MdpaxV.Model.Shipped
 import MdpaxV.Props.C19
+import MdpaxV.Theory.Hendrix
 import Mathlib.Data.List.Perm.Basic
 import Mathlib.Algebra.BigOperators.Group.List.Lemmas
 import Mathlib.Algebra.BigOperators.Group.List.Basic
@@ -385,6 +386,76 @@ theorem mirjalili_nonneg {β : Type} (c : MirjaliliCfg β) (demandP : Nat → α
     apply mul_nonneg (Nat.cast_nonneg _)
     exact powProd_nonneg _ hc _
   · exact le_refl 0
+
+/-! ### Hendrix: total mass of a row (the exact form of the recorded finding) -/
+section HendrixMass
+open MdpaxV.Hendrix Finset
+/-- **total mass of a row**: P(d_B < y) · (P(d_A < x) + tail_A(x)) + Σ_{z ≤ D} pz[z, y].  With an exact tail table the first factor is
+    P(d_B < y); the second term is the mass of {d_B ≥ y} that survives the truncation d_B < D, d_A + u ≤ D — strictly less than
+    P(d_B ≥ y) whenever the Poisson demands have mass beyond the truncation point (the recorded C13 finding) -/
+theorem hendrix_row_sum (t : HendrixTab α) (x y : Nat) (hx : x ≤ t.maxA) (hy : y ≤ t.maxB) (hA : t.maxA ≤ t.D) :
+    (hendrixRow t x y).sum =
+      (∑ ib ∈ range y, t.pb ib) * (∑ ia ∈ range x, t.pa ia + t.tailA x) + ∑ z ∈ range (t.D + 1), hendrixPz t z y := by
+  have hrow : (hendrixRow t x y).sum = ∑ ia ∈ range (t.maxA + 1), ∑ ib ∈ range (t.maxB + 1), hendrixCell t x y ia ib := by
+    unfold hendrixRow
+    have hfm : ∀ (l : List Nat) (F : Nat → List α), (l.flatMap F).sum = (l.map fun a => (F a).sum).sum := by
+      intro l F; induction l with
+      | nil => simp
+      | cons a l ihl => simp [List.flatMap_cons, List.sum_append, ihl]
+    rw [hfm, ← lsum_eq_sum, lsum_range]
+    apply Finset.sum_congr rfl; intro ia _
+    rw [← lsum_eq_sum, lsum_range]
+  rw [hrow]
+  simp only [hendrixCell, Finset.sum_add_distrib]
+  have hB : ∑ ib ∈ range (t.maxB + 1), (if ib < y then t.pb ib else 0) = ∑ ib ∈ range y, t.pb ib :=
+    sum_range_ite_lt _ _ _ (by omega)
+  have s1 : ∑ ia ∈ range (t.maxA + 1), ∑ ib ∈ range (t.maxB + 1), hendrixP1 t x y ia ib
+      = (∑ ia ∈ range x, t.pa ia) * (∑ ib ∈ range y, t.pb ib) := by
+    simp only [hendrixP1, ← Finset.mul_sum, hB, ← Finset.sum_mul]
+    rw [sum_range_ite_lt _ _ _ (by omega)]
+  have s2 : ∑ ia ∈ range (t.maxA + 1), ∑ ib ∈ range (t.maxB + 1), hendrixP2 t x y ia ib
+      = t.tailA x * (∑ ib ∈ range y, t.pb ib) := by
+    have : ∀ ia, ∑ ib ∈ range (t.maxB + 1), hendrixP2 t x y ia ib
+        = if ia = x then t.tailA x * (∑ ib ∈ range y, t.pb ib) else 0 := by
+      intro ia
+      unfold hendrixP2
+      split
+      · rw [← Finset.mul_sum, hB]
+      · simp
+    simp only [this]
+    exact sum_range_ite_eq _ _ _ (by omega)
+  have s3 : ∑ ia ∈ range (t.maxA + 1), ∑ ib ∈ range (t.maxB + 1), hendrixP3 t x y ia ib
+      = ∑ ia ∈ range x, hendrixPz t ia y := by
+    have : ∀ ia, ∑ ib ∈ range (t.maxB + 1), hendrixP3 t x y ia ib = if ia < x then hendrixPz t ia y else 0 := by
+      intro ia
+      unfold hendrixP3
+      exact sum_range_ite_eq _ _ _ (by omega)
+    simp only [this]
+    exact sum_range_ite_lt _ _ _ (by omega)
+  have s4 : ∑ ia ∈ range (t.maxA + 1), ∑ ib ∈ range (t.maxB + 1), hendrixP4 t x y ia ib
+      = ∑ z ∈ range (t.D + 1), (if x ≤ z then hendrixPz t z y else 0) := by
+    have : ∀ ia, ∑ ib ∈ range (t.maxB + 1), hendrixP4 t x y ia ib
+        = if ia = x then ∑ z ∈ range (t.D + 1), (if x ≤ z then hendrixPz t z y else 0) else 0 := by
+      intro ia
+      unfold hendrixP4
+      by_cases h : ia = x
+      · simp only [h, true_and, if_true]
+        rw [sum_range_ite_eq _ _ _ (by omega), lsum_range]
+      · simp [h]
+    simp only [this]
+    exact sum_range_ite_eq _ _ _ (by omega)
+  rw [s1, s2, s3, s4]
+  have hz : ∑ ia ∈ range x, hendrixPz t ia y + ∑ z ∈ range (t.D + 1), (if x ≤ z then hendrixPz t z y else 0)
+      = ∑ z ∈ range (t.D + 1), hendrixPz t z y := by
+    rw [← sum_range_ite_lt (fun z => hendrixPz t z y) (t.D + 1) x (by omega), ← Finset.sum_add_distrib]
+    apply Finset.sum_congr rfl; intro z _
+    by_cases h : z < x
+    · have : ¬ x ≤ z := by omega
+      simp [h, this]
+    · have : x ≤ z := by omega
+      simp [h, this]
+  rw [← hz]; ring
+end HendrixMass
 
 /-! non-vacuity -/
 example : splits 2 2 = [[0, 2], [1, 1], [2, 0]] := by decide
